@@ -7,5 +7,6 @@ CONSTANTS
   DEV_NestedSupertype = FALSE
   DEV_OwnerImportTwice = FALSE
   DEV_OwnerNaming = FALSE
+  DEV_WorldMerge = FALSE
 INVARIANTS FailsExactly MatchesContract MatchesByKey OneImportPerKey UniqueNames Canonical Satisfies Idempotent
 CHECK_DEADLOCK FALSE
